@@ -124,36 +124,60 @@ func c01DefaultScope(c *Ctx, r *Result) {
 		if scopeParam == nil {
 			continue
 		}
+		// the substitution may sit in a helper that is handed the scope (scopeOrGlobal(scope))
+		type unit struct {
+			fn    *ssa.Function
+			scope *ssa.Parameter
+		}
+		units := []unit{{fn, scopeParam}}
 		allInstrs(fn, func(in ssa.Instruction) {
-			call, ok := in.(*ssa.Call)
-			if !ok || call.Call.StaticCallee() == nil || call.Call.StaticCallee().Name() != "NewRuleScope" {
+			ci, ok := in.(ssa.CallInstruction)
+			if !ok {
 				return
 			}
-			n++
-			site := key + "#default-scope"
-			pos := c.Pos(c.InstrPos(in))
-			b := in.Block()
-			good := false
-			if len(b.Preds) == 1 {
-				p := b.Preds[0]
-				if ifi, isIf := p.Instrs[len(p.Instrs)-1].(*ssa.If); isIf {
-					if bo, isBO := ifi.Cond.(*ssa.BinOp); isBO && (bo.Op == token.EQL || bo.Op == token.NEQ) {
-						isParamNil := (unspill(bo.X) == ssa.Value(scopeParam) && isNilConst(bo.Y)) || (unspill(bo.Y) == ssa.Value(scopeParam) && isNilConst(bo.X))
-						onTrue := p.Succs[0] == b
-						if isParamNil && ((bo.Op == token.EQL) == onTrue) {
-							good = true
+			g := ci.Common().StaticCallee()
+			if g == nil || !c.inModule(g) || c.PkgOf(g) != "engine" || len(g.Blocks) == 0 {
+				return
+			}
+			for i, a := range ci.Common().Args {
+				if unspill(a) == ssa.Value(scopeParam) && i < len(g.Params) {
+					units = append(units, unit{g, g.Params[i]})
+				}
+			}
+		})
+		for _, u := range units {
+			fn, scopeParam := u.fn, u.scope
+			allInstrs(fn, func(in ssa.Instruction) {
+				call, ok := in.(*ssa.Call)
+				if !ok || call.Call.StaticCallee() == nil || call.Call.StaticCallee().Name() != "NewRuleScope" {
+					return
+				}
+				n++
+				site := key + "#default-scope"
+				pos := c.Pos(c.InstrPos(in))
+				b := in.Block()
+				good := false
+				if len(b.Preds) == 1 {
+					p := b.Preds[0]
+					if ifi, isIf := p.Instrs[len(p.Instrs)-1].(*ssa.If); isIf {
+						if bo, isBO := ifi.Cond.(*ssa.BinOp); isBO && (bo.Op == token.EQL || bo.Op == token.NEQ) {
+							isParamNil := (unspill(bo.X) == ssa.Value(scopeParam) && isNilConst(bo.Y)) || (unspill(bo.Y) == ssa.Value(scopeParam) && isNilConst(bo.X))
+							onTrue := p.Succs[0] == b
+							if isParamNil && ((bo.Op == token.EQL) == onTrue) {
+								good = true
+							}
 						}
 					}
 				}
-			}
-			if good {
-				r.Instance("R01i", site, pos, "ok", "the global scope is substituted exactly where the given scope is nil", true)
-			} else {
-				r.Instance("R01i", site, pos, "finding", "default scope substituted under another condition", true)
-				r.Report(Finding{Rule: "R01i", Site: site, Pos: pos,
-					Msg: key + ": the global default scope is substituted under a condition other than `scope == nil`: a scope that is given but allows nothing (no definitions) is replaced by one that allows everything — rules out of the cascade's scope fire, and their suppression lists take effect"})
-			}
-		})
+				if good {
+					r.Instance("R01i", site, pos, "ok", "the global scope is substituted exactly where the given scope is nil", true)
+				} else {
+					r.Instance("R01i", site, pos, "finding", "default scope substituted under another condition", true)
+					r.Report(Finding{Rule: "R01i", Site: site, Pos: pos,
+						Msg: key + ": the global default scope is substituted under a condition other than `scope == nil`: a scope that is given but allows nothing (no definitions) is replaced by one that allows everything — rules out of the cascade's scope fire, and their suppression lists take effect"})
+				}
+			})
+		}
 	}
 	r.Floor("R01i", n, 1)
 }
